@@ -100,7 +100,7 @@ example : hvSpec [[0, 3], [1, 1], [1, 1], [3, 0]] [4, 4] = 11 := by decide
 for finite inputs, any dimension, any rows that pass the reference-point check. -/
 theorem compute_hypervolume_exact (S : List Pt) (r : Pt) (hS : ∀ p ∈ S, Le p r) :
     computeHypervolume (S.map liftPt) (liftPt r) false = HvOut.fin (hvSpec S r) := by
-  rw [computeHypervolume_lift S r false hS, computeHypervolumeFin_eq_spec S r hS]
+  exact computeHypervolume_eq_spec S r false hS
 
 example : computeHypervolume [[.fin 0, .fin 0], [.fin 1, .fin 1], [.fin 1, .fin 1]] [.fin 2, .fin 2] false
     = HvOut.fin 4 := by decide
@@ -109,7 +109,7 @@ example : computeHypervolume [[.fin 0, .fin 0], [.fin 1, .fin 1], [.fin 1, .fin 
 every rows `≤ r`. -/
 theorem compute_hypervolume_assume_pareto_exact (S : List Pt) (r : Pt) (hS : ∀ p ∈ S, Le p r) :
     computeHypervolume (S.map liftPt) (liftPt r) true = HvOut.fin (hvSpec S r) := by
-  rw [computeHypervolume_lift S r true hS, computeHypervolumeFin_assumePareto_eq_spec_all S r hS]
+  exact computeHypervolume_eq_spec S r true hS
 
 example : computeHypervolume [[.fin 0, .fin 0, .fin 0], [.fin 1, .fin 1, .fin 1]] [.fin 2, .fin 2, .fin 2] true
     = HvOut.fin 8 := by decide
@@ -160,12 +160,17 @@ theorem infinite_volume_is_inf (S : List (List EInt)) (r : List EInt) (ap : Bool
   simp only [hcheck, Bool.not_true, Bool.false_eq_true, if_false]
   by_cases hr : r.all EInt.isFinite = true
   · simp only [hr, Bool.not_true, Bool.false_eq_true, if_false]
-    have : S.any (fun p => p.any (fun c => !c.isFinite)) = true := by
+    have hmem : p ∈ S.filter (fun p => allLtE p r) := List.mem_filter.2 ⟨hp, allLtE_of_forall₂ hbox.1⟩
+    have hne : (S.filter (fun p => allLtE p r)).isEmpty = false := by
+      cases hS' : S.filter (fun p => allLtE p r) with
+      | nil => rw [hS'] at hmem; simp at hmem
+      | cons _ _ => rfl
+    have : (S.filter (fun p => allLtE p r)).any (fun p => p.any (fun c => !c.isFinite)) = true := by
       rcases hbox.2 with ⟨a, ha, rfl⟩ | ⟨b, hb, rfl⟩
-      · exact List.any_eq_true.2 ⟨p, hp, List.any_eq_true.2 ⟨_, ha, by simp [EInt.isFinite]⟩⟩
+      · exact List.any_eq_true.2 ⟨p, hmem, List.any_eq_true.2 ⟨_, ha, by simp [EInt.isFinite]⟩⟩
       · have := List.all_eq_true.1 hr _ hb
         simp [EInt.isFinite] at this
-    simp [this]
+    simp [hne, this]
   · simp [hr]
 
 theorem infinite_reference_is_inf (S : List (List EInt)) (r : List EInt) (ap : Bool)
@@ -177,17 +182,44 @@ theorem infinite_reference_is_inf (S : List (List EInt)) (r : List EInt) (ap : B
 example : computeHypervolume [[.fin 0, .fin 0]] [.pinf, .fin 1] false = HvOut.inf := by decide
 example : computeHypervolume [[.ninf, .fin 4], [.fin 1, .fin 1]] [.fin 5, .fin 5] false = HvOut.inf := by decide
 
-/-- **Finding (replayed on the real code by the harness).** `inf` is also returned when the only row with
-an infinite extent is flat in another coordinate, although the dominated volume is then finite
-(`0 * inf = nan` is mapped to `inf`). -/
-theorem degenerate_box_reported_inf :
-    computeHypervolume [[.ninf, .fin 5]] [.fin 5, .fin 5] false = HvOut.inf ∧
+/-- **touching_rows_contribute_nothing.**  A row that passes the check but touches the reference point in some
+coordinate (its box is degenerate) does not influence the result, whatever its other coordinates (`-inf`
+included) and whatever the other rows are. -/
+theorem touching_rows_contribute_nothing (S : List (List EInt)) (r p : List EInt) (ap : Bool)
+    (hp : allLeE p r = true) (htouch : allLtE p r = false) :
+    computeHypervolume (p :: S) r ap = computeHypervolume S r ap := by
+  unfold computeHypervolume
+  simp [List.all_cons, hp, List.filter_cons, htouch]
+
+/-- … and when every row touches the (finite) reference point the hypervolume is 0. -/
+theorem degenerate_rows_only_is_zero (S : List (List EInt)) (r : List EInt) (ap : Bool)
+    (hcheck : S.all (fun p => allLeE p r) = true) (hr : r.all EInt.isFinite = true)
+    (htouch : ∀ p ∈ S, allLtE p r = false) : computeHypervolume S r ap = HvOut.fin 0 := by
+  unfold computeHypervolume
+  have : S.filter (fun p => allLtE p r) = [] := List.filter_eq_nil_iff.2 (fun p hp => by simp [htouch p hp])
+  simp [hcheck, hr, this]
+
+/-- **degenerate_box_is_zero** (the input of the repaired finding F23): the only row has an infinite extent in
+one coordinate and touches the reference point in the other — dominated volume 0, and 0 is returned; next to a
+proper row it changes nothing. -/
+theorem degenerate_box_is_zero :
+    computeHypervolume [[.ninf, .fin 5]] [.fin 5, .fin 5] false = HvOut.fin 0 ∧
+    computeHypervolume [[.ninf, .fin 5]] [.fin 5, .fin 5] true = HvOut.fin 0 ∧
+    computeHypervolume [[.ninf, .fin 5], [.fin 1, .fin 1]] [.fin 5, .fin 5] false = HvOut.fin 16 ∧
       ¬ InfiniteBox [.ninf, .fin 5] [.fin 5, .fin 5] := by
-  refine ⟨by decide, ?_⟩
+  refine ⟨by decide, by decide, by decide, ?_⟩
   rintro ⟨h, _⟩
   cases h with
   | cons _ h => cases h with
     | cons h _ => exact h.2 rfl
+
+/-- what is left of the old behaviour, by convention (the suite's `test_wfg_with_inf` pins it): a NON-FINITE
+reference point answers `inf` before any row is looked at, also when the only row touches it. -/
+theorem nonfinite_reference_is_inf_by_convention :
+    computeHypervolume [[.pinf, .fin 0]] [.pinf, .fin 1] false = HvOut.inf := by decide
+
+-- a `-inf` row that does NOT touch the reference point still gives inf
+example : computeHypervolume [[.ninf, .fin 4]] [.fin 5, .fin 5] false = HvOut.inf := by decide
 
 /-! ## 2. Pareto front and non-domination rank -/
 
